@@ -540,6 +540,29 @@ func vC15JudgeRouting(c *vh.Case, n *vDNet, res *vDRes, localW, localL []byte, l
 		if res.Err == nil {
 			c.Check(res.Info.ID == t, "findpeer-id", "FindPeer returned info for %s instead of %s", n.Name(res.Info.ID), n.Name(t))
 		}
+		if op.Inner == "" {
+			// The inner answers are exactly the PeerInfo(target) reads that IpfsDHT.FindPeer / FindLocal return
+			// (an inner call that fails answers with no address): the dual answer is their union, whatever the
+			// connection state, the errors and the cancellation instant.
+			union := map[string]bool{}
+			var reads []string
+			for _, rd := range res.InnerReads {
+				for _, a := range rd {
+					union[string(a.Bytes())] = true
+				}
+				reads = append(reads, fmt.Sprint(vDAddrStrings(rd)))
+			}
+			same := len(union) == len(seen)
+			for k := range union {
+				if !seen[k] {
+					same = false
+				}
+			}
+			c.Check(same, "findpeer-union-exact", "FindPeer returned %v (err %v); the inner DHTs answered %v: the result is not the union of both address sets", vDAddrStrings(res.Info.Addrs), res.Err, reads)
+			if len(res.InnerReads) == 2 && fmt.Sprint(vDAddrStrings(res.InnerReads[0])) != fmt.Sprint(vDAddrStrings(res.InnerReads[1])) {
+				c.Obs("findpeer_inner_answers_differ", 1)
+			}
+		}
 		if !uncancelled {
 			break
 		}
@@ -682,7 +705,7 @@ func TestVerif_C15_routing(t *testing.T) {
 		Rule: "one fake host shared by the WAN and LAN IpfsDHT of dual.New, two simulated networks told apart by the protocol list given to the message-sender builder; PRNG networks (WAN 0-55 peers, LAN 0-19, optional overlap; K in {2,3,5,8,20}, alpha in {1,2,3,10}; each table empty in ~1/3 of the cases; 0-100% failing peers per network by dial/request/silence; latencies 5/50/400 ms per network deciding which DHT answers first; value records valid/invalid/mis-keyed/empty and provider records spread over both networks and both local stores); 4-6 operations per case drawn from Provide, PutValue, GetValue, SearchValue, FindPeer, FindProvidersAsync (1/8 cancelled at a PRNG instant), each judged against the WAN/LAN table sizes read at call time and the two wire logs; failed seeds leave the tables so that later operations of a case see other emptiness combinations; non-trivial = at least one judged write and one judged read with RPCs on some network; distinct by (table emptiness, operation, outcome) sequence",
 		Clauses: []string{"write-routed-by-wan-table", "store-rpcs-on-active-network", "write-reaches-active-network", "write-both-empty-lookup-failure", "write-local-on-active",
 			"getvalue-wan-first", "getvalue-lan-fallback", "getvalue-none-combined-error", "getvalue-best-of-source", "searchvalue-sound", "searchvalue-improving",
-			"findpeer-union", "findpeer-combined-error", "findpeer-no-duplicate-addresses", "findprovs-once-each", "findprovs-at-most-count", "findprovs-sound", "findprovs-count0-complete"}},
+			"findpeer-union", "findpeer-union-exact", "findpeer-combined-error", "findpeer-no-duplicate-addresses", "findprovs-once-each", "findprovs-at-most-count", "findprovs-sound", "findprovs-count0-complete"}},
 		func(c *vh.Case) {
 			cfg := vC15GenCfg(c, false)
 			c.Bubble(t, 60*time.Minute, "dual-op-hang", func(t *testing.T) {
